@@ -108,7 +108,8 @@ class Tree:
             v = args['expr'].eval(md)
         else:
             v = md.this
-        return tpRender(v, md, self.section, self.args)
+        return tpRender(v, md, self.section, self.args,
+                        encoding=self.encoding)
 
     __call__ = render
 
@@ -505,7 +506,8 @@ def tpRenderTABLE(self, id, root_url, url, state, substate, diff, data,
                 try:
                     data = tpRenderTABLE(
                         item, id, root_url, url, state, substate, diff, data,
-                        colspan, section, md, treeData, level, args)
+                        colspan, section, md, treeData, level, args,
+                        encoding=encoding)
                 finally:
                     md._pop()
                 if not sub[1]:
